@@ -8,7 +8,8 @@ package oracle
 // request record and no result at that moment, i.e. resolution happens before expiry processing), the
 // list is cleared, and a result that already existed is never overwritten.
 //@ func EndBlocker
-//@ modifies Store_oracle, Other, Bank
+//@ may_panic calls
+//@ modifies Store_oracle, Other, Bank, VMErr, VMRet
 //@ requires keeper.wfRequests(Store_oracle)
 //@ requires forall i :: 0 <= i && i < len(keeper.pendingIDs(Store_oracle)) ==>
 //@             has(Store_oracle, types.RequestStoreKey(keeper.pendingIDs(Store_oracle)[i])) && !has(Store_oracle, types.ResultStoreKey(keeper.pendingIDs(Store_oracle)[i]))
@@ -27,7 +28,7 @@ package oracle
 // store invariant is the one SetParams establishes (validated parameters), its input ranges those of CometBFT vote
 // infos (see AllocateTokens).
 //@ func BeginBlocker
-//@ may_panic
+//@ may_panic calls
 //@ modifies Bank, Other, DistrReceived, DistrAllocated
 //@ requires len(ctx.VoteInfos()) <= 4096 && (forall j :: 0 <= j && j < len(ctx.VoteInfos()) ==> 0 <= ctx.VoteInfos()[j].Validator.Power && ctx.VoteInfos()[j].Validator.Power <= 1125899906842624)
 //@ requires keeper.oracleParams(Store_oracle).OracleRewardPercentage <= 100
